@@ -410,9 +410,15 @@ fn eval_case<P: Prop>(p: &P, case: &P::Case) -> (String, CheckResult) {
     }
   }
   let _clear = Clear(slot);
+  let _ = crate::heapcheck::take();
   let r = match guard(|| p.check(case)) {
     Ok(r) => r,
     Err(panic) => Err(format!("the harness or the library panicked outside a guarded call: {panic}")),
+  };
+  // the checking binary's allocator keeps 16 guard bytes behind every block and looks at them when the block is freed
+  let r = match (crate::heapcheck::take(), r) {
+    (Some(size), Ok(_)) => Err(format!("heap block overrun: the guard bytes behind a {size}-byte allocation freed on this thread while the case was evaluated had been overwritten")),
+    (_, r) => r,
   };
   (json, r)
 }
